@@ -3,7 +3,7 @@ from .common import Decision, run_units
 from .series_props import fold_canaries
 from .hermitian_common import specs_hermitian, LEAN_SETTING_NOTE
 
-LEAN = ["PV.C03_gauge", "PV.C02_adjoint", "PV.C02_unit_left", "PV.C01_similarity", "PV.C01_eliminated"]
+LEAN = ["PV.C03_unique", "PV.lsa_unique", "PV.code_least_action", "PV.C03_gauge", "PV.C02_adjoint", "PV.C02_unit_left", "PV.C01_similarity", "PV.C01_eliminated"]
 
 
 def check(tier, seed):
@@ -11,9 +11,12 @@ def check(tier, seed):
     d.add_units(fold_canaries(run_units(specs_hermitian(tier))))
     d.add_lean(LEAN)
     d.assumptions += [LEAN_SETTING_NOTE]
-    d.not_decided += ["uniqueness clause ('coincides with an independent unoptimised solver'): follows from the gauge, unitarity and elimination "
-                      "theorems by the standard order-by-order uniqueness argument, which is mechanised only when PV.uniqueness is listed among the Lean theorems"]
-    d.explanation = ("Gauge clause machine-checked: the kept parts (kc, kn) of U - star U vanish (U - U^dagger = 2V and V has no kept part); "
-                     "together with the C01/C02 theorems re-checked here.")
+    d.assumptions += ["uniqueness theorem hypothesis Gapped(H0): order by order the map v -> H0 v - v H0 is injective on elements without kept part; for the "
+                      "diagonal H0 of block_diagonalize this is 'energies of every eliminated pair differ', established on the real code by the PyVC obligations "
+                      "mask:eliminated-implies-solver-divides / accepted-pair-has-nonzero-denominator (units bd_masks, sylvester) discharged in this run"]
+    d.not_decided += ["that the independent unoptimised reference solver used by the bounded battery is itself correct (it is only the oracle of the bounded stand-in)"]
+    d.explanation = ("Gauge clause machine-checked: the kept parts (kc, kn) of U - star U vanish (U - U^dagger = 2V and V has no kept part). "
+                     "Uniqueness clause machine-checked (PV.lsa_unique, PV.C03_unique): any unitary 1 + O(lambda) that eliminates the selected elements of U^dagger H U and whose "
+                     "anti-Hermitian part has no kept element equals the series the code computes, at every order (contraction on the difference).")
     d.run_battery("bd_battery.py", ['herm', 'unique'], "<= 3 blocks of size <= 3, <= 2 parameters, total order <= 3, dense/sparse, fixed mask family; see replay/bd_battery.py")
     return d.finish(level="proof", trusted_base=["leanalg/lean/PV/*.lean", "leanalg/genlean.py", "leanalg/extract.py", "contracts/*.py"])
